@@ -134,7 +134,7 @@ func driveMain(args []string) int {
 	if jobs < 1 {
 		jobs = 1
 	}
-	sem := make(chan struct{}, jobs)
+	sem := newWsem(jobs)
 	outs := make([]*batchOutcome, len(batches))
 	var wg sync.WaitGroup
 	for i, b := range batches {
@@ -148,20 +148,44 @@ func driveMain(args []string) int {
 		}
 		go func(i int, b props.Batch, w int) {
 			defer wg.Done()
-			for k := 0; k < w; k++ {
-				sem <- struct{}{}
-			}
-			defer func() {
-				for k := 0; k < w; k++ {
-					<-sem
-				}
-			}()
+			sem.acquire(w)
+			defer sem.release(w)
 			outs[i] = runBatch(id, tier, seed, b, *bin, *binRace, *runDir, onlyCase)
 		}(i, b, w)
 	}
 	wg.Wait()
 
 	return conclude(p, id, tier, seed, outs, start, *noEvidence, *only != "")
+}
+
+// wsem is a weighted semaphore whose acquire takes all its slots at once
+// (taking them one by one from a shared channel can deadlock).
+type wsem struct {
+	mu   sync.Mutex
+	cond *sync.Cond
+	free int
+}
+
+func newWsem(n int) *wsem {
+	s := &wsem{free: n}
+	s.cond = sync.NewCond(&s.mu)
+	return s
+}
+
+func (s *wsem) acquire(w int) {
+	s.mu.Lock()
+	for s.free < w {
+		s.cond.Wait()
+	}
+	s.free -= w
+	s.mu.Unlock()
+}
+
+func (s *wsem) release(w int) {
+	s.mu.Lock()
+	s.free += w
+	s.mu.Unlock()
+	s.cond.Broadcast()
 }
 
 var caseRe = regexp.MustCompile(`^CASE (\S+)`)
